@@ -43,11 +43,9 @@ def build_asan(drv):
 
 
 def run_asan(drv, pid, seed):
-    err = build_asan(drv)
+    err = drv.build(["asan"])
     if err:
         return {"sub": "asan", "status": "error", "stats": None, "violations": [], "note": "ASan build failed: " + err[-500:], "wall_s": 0}
-    drv.BIN_OVERRIDE["asan"] = asan_bin(drv)
-    drv.ENV_OVERRIDE["asan"] = {"ASAN_OPTIONS": "detect_leaks=0:abort_on_error=1:symbolize=0", "TDV_SUBSTRATE": "asan"}
     h = drv.run_native("asan", pid, "thorough", seed, max(2, drv.NCPU), 3600, extra=["--scale", "0.08"])
     return drv.finish_native(h)
 
